@@ -7,6 +7,9 @@
 EXTENDS SqPack, TLC, Json
 
 CONSTANTS MaxCalls, Emit
+ByteCat(bs) == Flatten(bs)
+ByteSize(b) == Len(b)
+ByteLit(b) == b
 
 P1 == <<98,103,47,102,102,120,105,118,47,122,47,110,49,46,108,103,98>>   \* bg/ffxiv/z/n1.lgb  (base, named)
 P2 == <<98,103,47,101,120,49,47,122,47,110,49,46,108,103,98>>            \* bg/ex1/z/n1.lgb    (expansion 1)
